@@ -621,6 +621,9 @@ def undefine_unused_variables(source: str, preserve: Collection[str] = frozenset
             yield name, ast.Name(id="_")
             yielded.add(name)
 
+    if any(core.walk(root, ast.Name(id="_", ctx=ast.Load))):
+        return  # "_" is read somewhere, so assignments to it are not throwaway
+
     for node in core.walk(
         root,
         (
@@ -820,8 +823,15 @@ def delete_pointless_statements(source: str) -> str:
     """
     ast_tree = core.parse(source)
     safe_callables = parsing.safe_callable_names(ast_tree)
+    # "_" is only a throwaway name as long as nothing reads it (e.g. _ = gettext.gettext)
+    underscore_is_read = any(core.walk(ast_tree, ast.Name(id="_", ctx=ast.Load)))
     for node in itertools.chain([ast_tree], parsing.iter_bodies_recursive(ast_tree)):
         for i, child in enumerate(node.body):
+            if underscore_is_read and (
+                any(core.walk(child, ast.Name(id="_", ctx=ast.Store)))
+                or getattr(child, "name", None) == "_"
+            ):
+                continue
             if not core.has_side_effect(child, safe_callables):
                 if i > 0 or not _is_pointless_string(child):  # Docstring
                     yield child, None
